@@ -8,6 +8,42 @@ import sys
 ROOT = os.path.dirname(os.path.dirname(os.path.abspath(__file__)))
 
 CLAIMED = {
+    "C15": dict(
+        category="model_checking",
+        text="TLC checks the requirement module Dict.tla (identifier maps as relations, ghost of every pair ever handed out; "
+             "Bijective, RangesDisjoint, RoundTrip, Stable, well-founded nesting) and a code-shaped model UnionImpl.tla (two hash maps and a "
+             "counter per store, two independently built databases whose identifiers clash, SparqlDatabase::union step by step through "
+             "reencode_term_id and its translation cache, Dictionary/QuotedTripleStore::merge with or_insert) against it: refinement of "
+             "Dict.tla per dictionary, UnionDenotesUnion on lexical denotations, SourceUntouched, CacheSound, OrderIrrelevant, MergeSafe "
+             "(merge keeps a bijection exactly when the maps agree). Every build history of a smaller instance is replayed on the real "
+             "Dictionary/QuotedTripleStore/SparqlDatabase and seeded random encode/decode/quoted-encode sequences, unions of populated "
+             "databases (named and empty graphs, nested quoted triples, seeds, several entry points incl. encode_term_star) and "
+             "fork/extend/merge scenarios are recorded; every returned identifier, decoding, snapshot of both maps and union result is "
+             "validated by the TLA+ trace specification, which computes the expected lexical datasets itself.",
+        design_ref="DESIGN.md section 5 (C15)",
+        note="Trusted: TLC, Json module, recording harness (harness/src/c15.rs). A term is the string stored in the dictionary: the "
+             "collapse of IRI/literal/datatype/language forms by encode_term_star is not judged (C13/C14). Strings without white space. "
+             "Exhaustive only within the cfg constants (3 strings, <=2 quoted triples, <=2 quads per database); identifier exhaustion not explored. "
+             "merge is judged only under its precondition (the maps agree).",
+        technique="TLA+ refinement checking (TLC) + spec-to-impl replay + trace validation against the TLA+ requirement",
+    ),
+    "C06": dict(
+        category="model_checking",
+        text="A TLA+ requirement module (Worlds.tla over a Datalog least-model operator) defines the possible-worlds probability, the "
+             "min-max value and Boolean derivability; TLC checks a code-shaped model of the semi-naive tag propagation (delta_improved "
+             "re-triggering, single negative pass, tags as sets of worlds) against it exhaustively for a pool of small programs and inputs; "
+             "every terminal state of that model and seeded random programs (recursive, shared evidence, stratified negation, up to 12 "
+             "uncertain facts in the thorough tier) are executed on the real Reasoner::infer_new_facts_with_provenance under DNF, SDD, "
+             "min-max and Boolean provenance, and TLC enumerates all 2^|U| worlds of every case to judge every recovered probability as an "
+             "exact scaled integer.",
+        design_ref="DESIGN.md section 5 (C06)",
+        note="Trusted: TLC, the Json/FiniteSetsExt community modules, the recording harness (harness/src/c06.rs: runs the code, scales "
+             "probabilities to integers, tolerance 1e-6). Input probabilities on a dyadic grid num/den with den^|U| <= 2^30; accuracy on "
+             "arbitrary reals is not claimed. Negation only for stratified programs and only under dnf/sdd/bool. TopKProofs is only "
+             "checked as a lower bound, AddMultProbability only for the derived fact set (both approximate by design). Rule filters unused.",
+        technique="TLA+ model checking (TLC) of a code-shaped model + replay of its terminal states + trace validation with TLC as "
+                  "possible-worlds oracle",
+    ),
     "C12": dict(
         category="model_checking",
         text="TLC checks a code-shaped model of incremental_sds_plus (carried/new split, seeded expiry tags, semi-naive rounds with "
